@@ -251,6 +251,20 @@ func Load(repo, verifDir string, extraOverlay map[string][]byte) (*Program, erro
 				}
 			}
 		}
+		{
+			var gc []string
+			for _, b := range bl {
+				if b.Kind == "ghostimport" {
+					imports[strings.TrimSpace(b.Header)] = true
+				}
+				if b.Kind == "ghostcode" {
+					gc = append(gc, b.Header)
+				}
+			}
+			if len(gc) > 0 {
+				decls = append(decls, strings.Join(gc, "\n")+"\n")
+			}
+		}
 		for _, b := range commonSpecs {
 			// a common spec is injected into a package when the package says "use <group>"
 			grp := b.Flags["group"]
